@@ -117,7 +117,7 @@ impl<C: Suite> Env<C> {
     }
 }
 
-pub trait Subject<C: Suite>: Wire {
+pub trait Subject<C: Suite>: Wire + 'static {
     const NAME: &'static str;
     /// encoded length depends only on the type and the group
     const FIXED: bool;
